@@ -89,8 +89,15 @@ func (x *XmlNode) Next(r node.ListRequest) (node.Node, []val.Value, error) {
 				if !found {
 					break
 				}
-				if k.String() != v {
+				if k == nil {
 					break
+				}
+				if k.String() != v {
+					// 1.50 in the document is the key 1.5, compare as typed values
+					kv, err := node.NewValue(r.Meta.KeyMeta()[i].Type(), v)
+					if err != nil || kv == nil || !val.Equal(kv, k) {
+						break
+					}
 				}
 				isLastKey := i == (len(r.Key) - 1)
 				if isLastKey {
